@@ -188,7 +188,7 @@ def shrink_c09(scn, viol, test):
                 scn = c
     # 6. knobs to defaults
     for wi in range(len(scn["worlds"])):
-        for knob, default in (("io", {"chunk": "full"}), ("env", {"LC_ALL": None, "opt": ""}), ("io_seed", 0), ("env_seed", 0), ("default_ctor", False)):
+        for knob, default in (("io", {"chunk": "full"}), ("env", {"LC_ALL": None, "opt": ""}), ("io_seed", 0), ("env_seed", 0), ("default_ctor", False), ("runtime", None)):
             if scn["worlds"][wi].get(knob) != default:
                 c = copy.deepcopy(scn)
                 c["worlds"][wi][knob] = default
